@@ -188,7 +188,8 @@ def analyse_block_loop(b, t, op_mn):
             errs.append("asm option %s is unsound for a block that writes memory and flags" % badopt.lower())
     iv = operands[idx]["value"]
     # A1 instruction set
-    allowed = {"clc", "mov", op_mn, "inc", "dec", "jnz", "setc", "label"}
+    # `lea idx, [idx + K]` advances the index without touching any flag (unlike `add`, which would destroy the carry chain)
+    allowed = {"clc", "mov", op_mn, "inc", "dec", "jnz", "setc", "label", "lea"}
     for mn, ops in ins:
         if mn not in allowed:
             errs.append("unexpected instruction `%s`" % mn)
@@ -213,6 +214,19 @@ def analyse_block_loop(b, t, op_mn):
     if not body or body[-1] != ("dec", ["{%d}" % count]):
         errs.append("`dec {count}` is not the instruction immediately before jnz (ZF would not reflect the block counter)")
     S = sum(1 for mn, ops in body if mn == "inc" and ops == ["{%d}" % idx])
+    LEA = re.compile(r"^\[\{(\d+)\}\s*\+\s*(\d+)\]$")
+    for mn, ops in body:
+        if mn == "lea":
+            m_ = LEA.match(ops[1]) if len(ops) == 2 else None
+            if ops[0] == "{%d}" % idx and m_ and int(m_.group(1)) == idx:
+                S += int(m_.group(2))
+            else:
+                errs.append("lea is used for something other than advancing the index by a constant (`lea %s`)" % ", ".join(ops))
+    # the index may only move after the last memory access of the block (the offsets below are relative to its value at the label)
+    upd = [i for i, (mn, ops) in enumerate(body) if mn in ("inc", "lea") and ops and ops[0] == "{%d}" % idx]
+    mem = [i for i, (mn, ops) in enumerate(body) if mn == "mov"]
+    if upd and mem and min(upd) < max(mem):
+        errs.append("the index is advanced before the last load/store of the block")
     incs_other = [ops for mn, ops in body if mn == "inc" and ops != ["{%d}" % idx]]
     if incs_other:
         errs.append("inc applied to a register other than the index")
@@ -392,7 +406,25 @@ def analyse_block_loop(b, t, op_mn):
         if not okc:
             errs.append("the first tuple component is not `carry byte != 0`")
     info["lines"] = len(lines)
-    info["canonical"] = [(mn if mn != op_mn else "ARITH", ops) for mn, ops in ins]
+    # canonical form for the sibling comparison: the arithmetic mnemonic abstracted, and any run of index advances
+    # (`inc idx` x k, `lea idx, [idx + K]`) folded into one step of the total stride
+    canon_ = []
+    for mn, ops in ins:
+        adv = None
+        if mn == "inc" and ops == ["{%d}" % idx]:
+            adv = 1
+        elif mn == "lea" and len(ops) == 2 and ops[0] == "{%d}" % idx:
+            m_ = re.match(r"^\[\{(\d+)\}\s*\+\s*(\d+)\]$", ops[1])
+            if m_ and int(m_.group(1)) == idx:
+                adv = int(m_.group(2))
+        if adv is not None:
+            if canon_ and canon_[-1][0] == "ADVANCE":
+                canon_[-1] = ("ADVANCE", canon_[-1][1] + adv)
+            else:
+                canon_.append(("ADVANCE", adv))
+        else:
+            canon_.append((mn if mn != op_mn else "ARITH", ops))
+    info["canonical"] = canon_
     return errs, info
 
 
@@ -1166,6 +1198,12 @@ def eval_local(b, l, env, depth):
                 r = x >> y
             elif base == "Shl":
                 r = x << y
+            elif base == "BitAnd":
+                r = x & y
+            elif base == "BitOr":
+                r = x | y
+            elif base == "BitXor":
+                r = x ^ y
             elif base in ("Gt", "Ge", "Lt", "Le", "Eq", "Ne"):
                 r = {"Gt": x > y, "Ge": x >= y, "Lt": x < y, "Le": x <= y, "Eq": x == y, "Ne": x != y}[base]
                 return int(r)
@@ -1232,7 +1270,10 @@ def check_raw_slice_lengths(ctx, res, config="all"):
             if rem != bits % 32 and len(errs) < 3:
                 errs.append("bit_size %d: gen_bits receives remainder %d, expected n mod 32 = %d" % (bits, rem, bits % 32))
     except CantEval as e:
-        res.fail(Finding("R4-raw-slice-lengths", b.path, "cannot evaluate the length expressions of gen_biguint (%s): the bound len <= 2*native_len is not shown" % e, b))
+        # an expression outside the evaluator's language: the bound is neither shown nor refuted
+        res.note("R4-raw-slice-lengths: cannot evaluate the length expressions of gen_biguint (%s): the bound len <= 2*native_len is not decided" % e)
+        res.ok("R4-raw-slice-lengths", b.path, {"status": "undecided"}, nontrivial=False)
+        res.clause("R4-S/C18: gen_biguint's u32 view length (not decided: the length expression is outside the evaluator's language)")
         return
     # uniform advance: f(b+64) - f(b) constant  =>  the checked range generalises to every bit size
     for j in (0, 1):
